@@ -603,12 +603,14 @@ var stateAlphabet = []sym{
 }
 
 // stream selectors: which id a symbol applies to
-var selectors = []string{"cur", "new", "low", "even"}
+var selectors = []string{"cur", "new", "low", "even", "prev"}
+
+// selector "prev": the stream that was current before the latest "new" (an older stream next to a newer one)
 
 func (g *sgen) runSeq(seq [][2]int) {
 	g.newConn(3, 0, 0)
 	g.settings()
-	cur := uint32(0)
+	cur, prev := uint32(0), uint32(0)
 	g.next = 5 // ids 1 and 3 stay unused: "lower than the latest, never opened"
 	var names []string
 	for _, s := range seq {
@@ -620,7 +622,18 @@ func (g *sgen) runSeq(seq [][2]int) {
 				cur = g.sid()
 			}
 			sid = cur
+		case "prev":
+			if cur == 0 {
+				cur = g.sid()
+			}
+			sid = prev
+			if sid == 0 {
+				sid = cur
+			}
 		case "new":
+			if cur != 0 {
+				prev = cur
+			}
 			cur = g.sid()
 			sid = cur
 		case "low":
@@ -642,9 +655,17 @@ func genSrvState(p *prng, thorough bool, w *bufio.Writer) {
 	na, ns := len(stateAlphabet), len(selectors)
 	var all [][2]int
 	for a := 0; a < na; a++ {
-		for s := 0; s < ns; s++ {
+		for s := 0; s < 4; s++ { // "prev" needs a history: it comes in below
 			all = append(all, [2]int{a, s})
 		}
+	}
+	symIdx := func(name string) int {
+		for i, sy := range stateAlphabet {
+			if sy.name == name {
+				return i
+			}
+		}
+		panic("no symbol " + name)
 	}
 	for _, x := range all {
 		g.runSeq([][2]int{x})
@@ -655,6 +676,20 @@ func genSrvState(p *prng, thorough bool, w *bufio.Writer) {
 				continue
 			}
 			g.runSeq([][2]int{x, y})
+		}
+	}
+	// two streams side by side, one finished and one not: every frame on the one, then every frame on the other
+	// (a frame must be attributed to the stream it names, whatever else is in the table)
+	const selCur, selNew, selPrev = 0, 1, 4
+	for x := 0; x < na; x++ {
+		for y := 0; y < na; y++ {
+			if !thorough && (x*na+y)%3 != int(p.next()%3) {
+				continue
+			}
+			// older stream open, newer one answered and closed
+			g.runSeq([][2]int{{symIdx("H"), selCur}, {symIdx("HE"), selNew}, {symIdx("done"), selCur}, {x, selCur}, {y, selPrev}})
+			// older stream answered and closed, newer one open
+			g.runSeq([][2]int{{symIdx("HE"), selCur}, {symIdx("done"), selCur}, {symIdx("H"), selNew}, {x, selPrev}, {y, selCur}})
 		}
 	}
 	// stream-id watermark scenarios (RFC 7540 5.1.1: identifiers only ever increase)
@@ -1304,6 +1339,44 @@ func genSrvSoup(p *prng, thorough bool, w *bufio.Writer) {
 			g.done(1, respGen{status: 200, body: "pat:10"})
 		}
 		g.line("srv %s cut", g.id)
+	}
+	// a peer that stops reading, goes on sending and then disconnects, with responses and control replies queued
+	// for it: the write loop is parked in a write, the writer queue fills, the read loop and the stream loop park on
+	// it; when the peer goes every loop has to end and ServeConn has to return (judged by the monitors: `mon` lines)
+	stalls := 10
+	if thorough {
+		stalls = 80
+	}
+	for i := 0; i < stalls; i++ {
+		g.newConn(8, 0, 0)
+		g.settings()
+		var parked []uint32
+		for j := p.intn(5); j > 0; j-- {
+			sid := g.sid()
+			g.simpleReq(sid, "GET", nil)
+			parked = append(parked, sid)
+		}
+		if p.chance(1, 2) {
+			g.line("srv %s stall", g.id)
+			// many small requests: their responses and the replies to the control frames fill the writer queue from
+			// the stream loop's side
+			var b []byte
+			for j := p.intn(200); j > 0; j-- {
+				sid := g.sid()
+				b = append(b, frameBytes(1, 5, sid, g.enc.block(nil, []kv{{k: ":method", v: "GET"}, {k: ":scheme", v: "https"}, {k: ":path", v: "/"}, {k: ":authority", v: "a"}}))...)
+				b = append(b, frameBytes(3, 0, sid, u32(8))...)
+				if p.chance(1, 3) {
+					b = append(b, frameBytes(4, 0, 0, nil)...)
+				}
+			}
+			if len(b) > 0 {
+				g.line("srv %s burst %s", g.id, hexOrDash(b))
+			}
+			if len(parked) > 0 && p.chance(2, 3) {
+				g.line("srv %s doneall st=200 hdr=- body=pat:%d", g.id, p.intn(200000))
+			}
+		}
+		g.line("srv %s stallcut %d", g.id, []int{0, 1, 100, 127, 128, 129, 140, 300, 2000}[p.intn(9)])
 	}
 	// random soups
 	for i := 0; i < n; i++ {
